@@ -10,5 +10,5 @@ CONSTANTS
   Prompt = FALSE
   KeepHist = FALSE
 VIEW View
-INVARIANTS TypeOK C17Cex FileAfterDrop GenNotAhead ClosedMeansGone
+INVARIANTS TypeOK C17Cex FileAfterDrop GenNotAhead ClosedMeansGone SingleWriter
 CHECK_DEADLOCK FALSE
